@@ -191,7 +191,7 @@ example : (match samapCpy exJ with | some (c, s) => jeq exJ c && s == 0 | none =
 
 /-- Known finding `samap-cap-is-len`: Capacity with a non-empty path answers with the length. -/
 theorem repo_not_correct :
-    samapLcAccepts true exJ [key "b"] (samapCap LibCfg.repo exJ [key "b"]) = false := by decide
+    samapLcAccepts true exJ [key "b"] (samapCap LibCfg.original exJ [key "b"]) = false := by decide
 
 /-- `JMapsOK` is needed: with a repeated key (not a Go map) the tree is not even equal to itself. -/
 example : let j : JVal := .map 0 0 false [key "a", key "a"] [.leaf { kind := .int, v := .int 1 }, .leaf { kind := .int, v := .int 2 }]
